@@ -153,6 +153,19 @@ def monitor_user(case, r):
     extra = set(started) - (needed & calls)
     if extra:
         v.append(("C04", f"calls executed that the output does not depend on: {sorted(extra)}"))
+    # C10 at the level of uberjob.run: max_errors as the caller passed it
+    fset = {int(k) for k in case["failing"]}
+    if fset and not cyclic:
+        w = case["workers"]
+        k = case["max_errors"]
+        runnable = {i for i in needed & calls if not any(a in fset for a in nx.ancestors(G, i))}
+        E = [i for i in needed & calls if i in fset and not any(a in fset for a in nx.ancestors(G, i))]
+        if k is None and set(started) != runnable:
+            v.append(("C10", f"max_errors=None: executed {sorted(set(started))}, expected every needed call with no failed dependency {sorted(runnable)}"))
+        if k is not None and len(failed) > k + w:
+            v.append(("C10", f"{len(failed)} calls failed with max_errors={k}, max_workers={w}"))
+        if k is not None and w == 1 and len(failed) != min(k + 1, len(E)):
+            v.append(("C10", f"one worker, max_errors={k}: {len(failed)} calls failed, expected min(k+1, {len(E)})"))
     if failed:
         if not isinstance(r.exc, uberjob.CallError):
             v.append(("C06", f"a call failed but run raised {r.exc!r}"))
